@@ -857,6 +857,18 @@ func (mf *MultiFileAppendable) ReadAt(bs []byte, off int64) (int, error) {
 		}
 		r += rn
 
+		if rn == 0 && errors.Is(err, singleapp.ErrAlreadyClosed) {
+			// the file was rotated out and evicted from the cache of opened files
+			// while it was being read through the (not reference counted) current appendable
+			mf.mutex.Lock()
+			closed := mf.closed
+			mf.mutex.Unlock()
+
+			if !closed {
+				continue
+			}
+		}
+
 		if errors.Is(err, io.EOF) {
 			if rn > 0 {
 				continue
